@@ -8,3 +8,11 @@ import Proofs.C15
 #print axioms C15.caches_are_memo_seq
 #print axioms C15.cells1_lookup
 #print axioms C15.sums2_lookup
+#print axioms C15.cellResidue_perm
+#print axioms C15.line_permutation_statistics
+#print axioms C15.line_permutation_comparison
+#print axioms C15.line_permutation_table
+#print axioms C15.baseline_depends_on_first_observation
+#print axioms C15L.sortFloats_eq_of_perm
+#print axioms C15L.clean_of_no_nan_no_mixed_zero
+#print axioms C15L.f64Less_iff
